@@ -185,6 +185,8 @@ def check(dump, known_names=()):
                 first = first or r
                 if near is None and r in NEAR_MISSES:
                     near = r
+                elif near is None and r.startswith('union-no-branch:near='):
+                    near = r[len('union-no-branch:near='):]        # a near miss inside a nested record/array default
             # a default that conforms to no branch: name the branch reason that comes closest (the near misses below are the
             # ones a value-driven check lets through), else the first branch's reason
             return 'union-no-branch:near=%s' % near if near else 'union-no-branch:first=%s' % (first or 'empty')
